@@ -118,10 +118,18 @@ func cmdRun(args []string) int {
 		cfg.Deadline = time.Now().Add(*deadline)
 	}
 	pool := sym.NewPool(*solver, *qto)
+	if err := pool.SelfTest(); err != nil {
+		fmt.Println("aborted:", err)
+		os.Exit(2)
+	}
 	defer pool.Close()
 	eng := sym.NewEngine(l.Prog, l.Fset, cfg, pool)
 	if *solver2 != "" && *solver2 != *solver {
 		eng.Pool2 = sym.NewPool(*solver2, *qto)
+		if err := eng.Pool2.SelfTest(); err != nil {
+			fmt.Println("aborted:", err)
+			os.Exit(2)
+		}
 		defer eng.Pool2.Close()
 	}
 	for _, n := range []string{*solver, *solver2, "z3new"} {
